@@ -699,6 +699,12 @@ class Engine:
             self.decisions.append(d)
             self.solver.add(cond if d else z3.Not(cond))
             return d
+        if self.assume_feasible:        # explore both sides without asking (sound: an infeasible side only yields vacuous proofs)
+            self.pending.append(self.decisions + [False])
+            self.decisions.append(True)
+            self.prefix.append(True)
+            self.solver.add(cond)
+            return True
         rt = self._check(cond)
         t_ok = rt != "unsat"
         if not t_ok:
@@ -801,6 +807,7 @@ class Engine:
 
     # ---- second-solver cross-check: dump assertion queries as SMT-LIB2 (from the original terms, before solving)
     dump_dir, dump_cap, _dumped, _last_dump = None, 25, 0, None
+    assume_feasible = False
 
     def _dump(self, cond, label):
         self._last_dump = None
